@@ -2,7 +2,8 @@
    short writes (spans < 10 slots): a node counts exactly the writes that meet its bucket, and its
    samples counter is the sum of their binary64 shares. *)
 From Pyro Require Import Model.Base Model.Float53 Model.Segment
-  Proofs.SegmentProofs Proofs.SegStruct Proofs.SegGet Proofs.SegStore Proofs.SegInv Proofs.SegRead Proofs.SegCanon.
+  Proofs.SegmentProofs Proofs.SegStruct Proofs.SegGet Proofs.SegStore Proofs.SegInv Proofs.SegRead Proofs.SegCanon
+  Proofs.Float53Proofs.
 From Coq Require Import ZifyBool ZifyNat ZifyN.
 Local Open Scope Z_scope.
 
@@ -132,3 +133,212 @@ Section PutWinv.
         * exact (oall_In _ _ _ Hfw Hin).
   Qed.
 End PutWinv.
+
+(* ---------- the statement (published for Props/C01.v and Props/C13.v) ---------- *)
+Definition root_winv (s : segment) (H : list write) : Prop :=
+  match s_root s with None => True | Some (lvl, n) => winv H lvl n end.
+
+(* For every history of short writes inside one epoch block:
+   (1) every node (l,t) of the reached tree has writes = number of writes meeting [t, t+10^l) and
+       samples = sum over those writes of uint64(float64(n_w) * RN(ov/span))   ([winv], recursively);
+   (2) in particular every get callback carries those two counters. *)
+Definition seg_counters_exact_stmt : Prop :=
+  forall K ws, Forall (valid_write K) ws -> Forall (fun w => w_b w - w_a w < 10) ws ->
+    root_winv (fst (run_writes ws)) ws /\
+    forall qa qb, qa < qb ->
+      Forall (fun c => gc_writes c = nmeet ws (gc_lvl c) (gc_t c) /\ gc_samples c = ssum ws (gc_lvl c) (gc_t c))
+             (s_get qa qb (fst (run_writes ws))).
+
+(* ---------- growTree ---------- *)
+Lemma winv_fields H lvl t p s w ch : winv H lvl (SNode t p s w ch) -> w = nmeet H lvl t /\ s = ssum H lvl t.
+Proof. destruct lvl; cbn [winv]; tauto. Qed.
+Lemma winv_S_intro H l t p s w ch :
+  w = nmeet H (S l) t /\ s = ssum H (S l) t /\ oall (winv H l) ch -> winv H (S l) (SNode t p s w ch).
+Proof. intros G. exact G. Qed.
+
+Lemma filter_all_meet H lvl t : Forall (fun w => w_a w < w_b w /\ w_a w < t + pow10 lvl /\ t < w_b w) H ->
+  filter (meets lvl t) H = H.
+Proof.
+  induction 1 as [|w H (G1 & G2 & G3) _ IH]; [reflexivity|]. cbn [filter].
+  replace (meets lvl t w) with true by (unfold meets; lia). rewrite IH. reflexivity.
+Qed.
+
+Lemma grow_step_winv K H lvl n root1 : node_ok K lvl n -> hist_in lvl (sn_time n) H -> winv H lvl n ->
+  sn_replace lvl (SNode (trunc_to (S lvl) (sn_time n)) false (sn_samples n) (sn_writes n) (repeat None 10)) n = Some root1 ->
+  winv H (S lvl) root1.
+Proof.
+  intros (Hl & Hwf & Htwo & Hblk) Hh Hw Er.
+  pose proof (wf_time_mod _ _ Hwf) as Hm.
+  pose proof (replace_idx_grid lvl (sn_time n) Hm) as Hidx. cbv zeta in Hidx.
+  unfold sn_replace in Er. set (T := trunc_to (S lvl) (sn_time n)) in *.
+  set (i := replace_idx lvl T (sn_time n)) in *. destruct Hidx as [Hi Ht].
+  replace (i <? 0) with false in Er by lia.
+  destruct (list_set (Z.to_nat i) (Some n) (repeat None 10)) as [ch'|] eqn:El; [|discriminate].
+  inversion Er; subst root1. pose proof (pow10_pos lvl) as Hp. pose proof (pow10_S lvl) as HS.
+  assert (F1 : filter (meets lvl (sn_time n)) H = H).
+  { apply filter_all_meet. eapply Forall_impl; [|exact Hh]. intros w ((G1 & _) & G2 & G3). lia. }
+  assert (F2 : filter (meets (S lvl) T) H = H).
+  { apply filter_all_meet. eapply Forall_impl; [|exact Hh]. intros w ((G1 & _) & G2 & G3). nia. }
+  destruct n as [t p s w ch]. cbn [sn_time sn_samples sn_writes] in *.
+  destruct (winv_fields H lvl t p s w ch Hw) as [W1 W2].
+  apply winv_S_intro. unfold nmeet, ssum in W1, W2 |- *. rewrite F1 in W1, W2. rewrite F2.
+  split; [exact W1|]. split.
+  - rewrite W2. f_equal. apply map_ext_Forall. eapply Forall_impl; [|exact Hh].
+    intros w0 ((G1 & _) & G2 & G3). unfold wincr. f_equal. unfold ov. nia.
+  - eapply list_set_oall; [exact Hw|exact El].
+Qed.
+
+Lemma grow_loop_winv K E H a b : forall fuel lvl n, node_ok K lvl n -> store_ok E H lvl n -> winv H lvl n ->
+  fuel = (8 - lvl)%nat ->
+  let '(lvl', n') := s_grow_loop fuel a b lvl n in winv H lvl' n'.
+Proof.
+  induction fuel as [|f IH]; intros lvl n Hok Hst Hw Hf; cbn [s_grow_loop].
+  - destruct (relationship _ _ a b); exact Hw.
+  - destruct (relationship _ _ a b); try exact Hw;
+      (destruct (sn_replace lvl _ n) as [root1|] eqn:Er; [|exact Hw];
+       pose proof (grow_step_store K E H lvl n root1 Hok Hst Er) as Hst1;
+       pose proof (grow_step_node_ok K lvl n root1 Hok ltac:(lia) Er) as Hok1;
+       pose proof (grow_step_winv K H lvl n root1 Hok (proj2 (proj2 (proj2 (proj2 Hst)))) Hw Er) as Hw1;
+       specialize (IH (S lvl) root1 Hok1 Hst1 Hw1 ltac:(lia));
+       destruct (s_grow_loop f a b (S lvl) root1); exact IH).
+Qed.
+
+Lemma s_put_winv K a b smp beta s E H : valid_range K a b -> b - a < 10 -> sinv K s E H ->
+  root_cinv s H -> root_winv s H ->
+  root_winv (fst (s_put a b smp s)) (mk_write a b smp beta :: H).
+Proof.
+  intros Hv Hshort Hs Hc Hw. pose proof Hv as (Hab & Ha & Hb).
+  assert (G : match s_root (s_grow a b s) with
+              | Some (lvl, n) => wf lvl n /\ cinv H lvl n /\ winv H lvl n
+              | None => False
+              end).
+  { pose proof (s_grow_store K a b s E H Hv Hs) as GS.
+    unfold s_grow, sinv, root_cinv, root_winv in *. destruct (s_root s) as [[lvl n]|]; cbn [s_root] in *.
+    - destruct Hs as [Hok Hst]. pose proof (pow10_pos lvl).
+      pose proof (grow_loop_cinv K E H (Z.min a (sn_time n)) (Z.max b (sn_time n + pow10 lvl))
+                    (max_level - lvl)%nat lvl n Hok Hst Hc eq_refl) as GC.
+      pose proof (grow_loop_winv K E H (Z.min a (sn_time n)) (Z.max b (sn_time n + pow10 lvl))
+                    (max_level - lvl)%nat lvl n Hok Hst Hw eq_refl) as GW.
+      destruct (s_grow_loop _ _ _ lvl n) as [lvl' n']. destruct GS as ((_ & Hwf & _) & _). auto.
+    - destruct Hs as [HH HE]. subst H.
+      assert (Hn : node_ok K 0 (new_node a 0)).
+      { split; [unfold max_level; lia|]. split; [apply wf_new_node; change (pow10 0) with 1; apply Z.mod_1_r|].
+        split; [apply two_new_node|]. unfold in_blk. cbn [new_node sn_time]. change (pow10 0) with 1. lia. }
+      assert (Hst : store_ok E [] 0 (new_node a 0)).
+      { split; [apply quiet_new_node; intros k _; apply HE|].
+        split; [apply ninv_new_node; constructor|].
+        split; [intros k _; apply HE|]. split; [rewrite content_new_node; reflexivity|constructor]. }
+      assert (Hc0 : cinv [] 0 (new_node a 0)) by (cbn; intros [w [[] _]]).
+      assert (Hw0 : winv [] 0 (new_node a 0)) by (cbn; auto).
+      pose proof (grow_loop_cinv K E [] a b max_level 0%nat (new_node a 0) Hn Hst Hc0 eq_refl) as GC.
+      pose proof (grow_loop_winv K E [] a b max_level 0%nat (new_node a 0) Hn Hst Hw0 eq_refl) as GW.
+      destruct (s_grow_loop _ _ _ _ _) as [lvl' n']. destruct GS as ((_ & Hwf & _) & _). auto. }
+  unfold s_put. destruct (s_root (s_grow a b s)) as [[lvl n]|]; [|contradiction].
+  destruct G as (Hwf & Hcn & Hwn). pose proof (put_winv a b smp beta H Hab Hshort lvl n Hwf Hcn Hwn) as P.
+  destruct (s_put_node lvl a b smp n) as [n' cbs]. cbn [fst] in *. unfold root_winv. cbn [s_root]. exact P.
+Qed.
+
+Lemma run_winv K : forall ws s E H, Forall (valid_write K) ws -> Forall (fun w => w_b w - w_a w < 10) ws ->
+  sinv K s E H -> root_cinv s H -> root_winv s H ->
+  root_winv (fst (fold_left put_step ws (s, E))) (rev ws ++ H).
+Proof.
+  induction ws as [|w ws IH]; intros s E H Hv Hsh Hs Hc Hw; cbn [fold_left rev app]; [exact Hw|].
+  inversion Hv as [|w0 ws0 [Hw1 Hw2] Hvs]; subst. inversion Hsh as [|w1 ws1 Hs1 Hss]; subst.
+  pose proof (s_put_store K (w_a w) (w_b w) (w_smp w) (w_beta w) s E H Hw1 Hw2 Hs) as Hstep.
+  pose proof (s_put_cinv K (w_a w) (w_b w) (w_smp w) (w_beta w) s E H Hw1 Hs1 Hs Hc) as Hcstep.
+  pose proof (s_put_winv K (w_a w) (w_b w) (w_smp w) (w_beta w) s E H Hw1 Hs1 Hs Hc Hw) as Hwstep.
+  assert (Heq : put_step (s, E) w = (fst (s_put (w_a w) (w_b w) (w_smp w) s),
+                                     apply_cbs (w_beta w) E (snd (s_put (w_a w) (w_b w) (w_smp w) s)))).
+  { unfold put_step. cbn [fst snd]. destruct (s_put (w_a w) (w_b w) (w_smp w) s). reflexivity. }
+  rewrite Heq. specialize (IH _ _ _ Hvs Hss Hstep Hcstep Hwstep).
+  rewrite <- app_assoc. cbn [app].
+  replace (mk_write (w_a w) (w_b w) (w_smp w) (w_beta w)) with w in IH by (destruct w; reflexivity).
+  exact IH.
+Qed.
+
+(* the counters do not depend on the order of the history *)
+Lemma sumN'_app l1 l2 : sumN' (l1 ++ l2) = (sumN' l1 + sumN' l2)%N.
+Proof. unfold sumN'. induction l1 as [|x l1 IH]; cbn [app fold_right]; lia. Qed.
+Lemma sumN'_rev l : sumN' (rev l) = sumN' l.
+Proof. induction l as [|x l IH]; [reflexivity|]. cbn [rev]. rewrite sumN'_app, IH. unfold sumN'. cbn [fold_right]. lia. Qed.
+Lemma filter_rev {A} (f : A -> bool) l : filter f (rev l) = rev (filter f l).
+Proof.
+  induction l as [|x l IH]; [reflexivity|]. cbn [rev filter]. rewrite filter_app, IH. cbn [filter].
+  destruct (f x); cbn [rev]; [reflexivity|rewrite app_nil_r; reflexivity].
+Qed.
+Lemma nmeet_rev H lvl t : nmeet (rev H) lvl t = nmeet H lvl t.
+Proof. unfold nmeet. rewrite filter_rev, rev_length. reflexivity. Qed.
+Lemma ssum_rev H lvl t : ssum (rev H) lvl t = ssum H lvl t.
+Proof. unfold ssum. rewrite filter_rev, map_rev. apply sumN'_rev. Qed.
+
+Lemma winv_rev H : forall lvl n, winv (rev H) lvl n -> winv H lvl n.
+Proof.
+  induction lvl as [|l IH]; intros [t p s w ch]; cbn [winv]; rewrite nmeet_rev, ssum_rev; [tauto|].
+  intros (W1 & W2 & W3). split; [exact W1|]. split; [exact W2|].
+  unfold oall in *. eapply Forall_impl; [|exact W3]. intros o Ho. destruct o; [apply IH; exact Ho|exact I].
+Qed.
+
+(* get hands out the counters of the nodes it names *)
+Lemma get_counters H : forall lvl a b n, winv H lvl n ->
+  Forall (fun c => gc_writes c = nmeet H (gc_lvl c) (gc_t c) /\ gc_samples c = ssum H (gc_lvl c) (gc_t c))
+         (s_get_node lvl a b n).
+Proof.
+  induction lvl as [|l IH]; intros a b [t p s w ch] Hw; rewrite get_node_unfold; cbv zeta.
+  - destruct Hw as (W1 & W2 & _).
+    destruct (p && covers _); [repeat constructor; cbn; auto|].
+    destruct (is_outside _); [constructor|].
+    destruct (p && _); [repeat constructor; cbn; auto|constructor].
+  - destruct Hw as (W1 & W2 & W3).
+    destruct (p && covers _); [repeat constructor; cbn; auto|].
+    destruct (is_outside _); [constructor|].
+    destruct (p && _); [repeat constructor; cbn; auto|].
+    apply Forall_forall. intros c Hc. apply in_flat_map in Hc. destruct Hc as [o [Ho Hc]].
+    destruct o as [x|]; [|destruct Hc]. cbn [get_child] in Hc.
+    pose proof (oall_In _ _ _ W3 Ho) as Hx. specialize (IH a b x Hx). rewrite Forall_forall in IH. exact (IH c Hc).
+Qed.
+
+Theorem seg_counters_exact : seg_counters_exact_stmt.
+Proof.
+  intros K ws Hv Hsh.
+  assert (Hs0 : sinv K s_empty store0 []) by (unfold sinv; cbn; split; reflexivity).
+  pose proof (run_winv K ws s_empty store0 [] Hv Hsh Hs0 I I) as G. rewrite app_nil_r in G. fold (run_writes ws) in G.
+  assert (G' : root_winv (fst (run_writes ws)) ws).
+  { unfold root_winv in *. destruct (s_root (fst (run_writes ws))) as [[lvl n]|]; [apply winv_rev; exact G|exact I]. }
+  split; [exact G'|]. intros qa qb Hq. unfold s_get, root_winv in *.
+  destruct (s_root (fst (run_writes ws))) as [[lvl n]|]; [apply get_counters; exact G'|constructor].
+Qed.
+
+(* ---------- single-slot writes (what the agent sends): the share is 1/1, the counter adds n exactly ---------- *)
+Lemma wincr_single_slot lvl t w : w_b w = w_a w + 1 -> (w_smp w < 2 ^ 53)%N -> meets lvl t w = true ->
+  wincr lvl t w = w_smp w.
+Proof.
+  intros Hb Hn Hm. unfold wincr. unfold meets in Hm. pose proof (pow10_pos lvl).
+  replace (ov t (t + pow10 lvl) (w_a w) (w_b w)) with 1 by (unfold ov; lia).
+  replace (w_b w - w_a w) with 1 by lia. apply samples_incr_one. exact Hn.
+Qed.
+
+Lemma ssum_single_slot H lvl t : Forall (fun w => w_b w = w_a w + 1 /\ (w_smp w < 2 ^ 53)%N) H ->
+  ssum H lvl t = sumN' (map w_smp (filter (meets lvl t) H)).
+Proof.
+  intros HH. unfold ssum. f_equal. induction HH as [|w H [H1 H2] _ IH]; [reflexivity|].
+  cbn [filter]. destruct (meets lvl t w) eqn:Em; [|exact IH]. cbn [map]. rewrite IH.
+  rewrite (wincr_single_slot lvl t w H1 H2 Em). reflexivity.
+Qed.
+
+(* for histories of single-slot writes with counts below 2^53: every node, and every get callback,
+   holds the number of writes into its bucket and the plain sum of their sample counts *)
+Theorem seg_counters_single_slot K ws : Forall (valid_write K) ws ->
+  Forall (fun w => w_b w = w_a w + 1 /\ (w_smp w < 2 ^ 53)%N) ws ->
+  root_winv (fst (run_writes ws)) ws /\
+  forall qa qb, qa < qb ->
+    Forall (fun c => gc_writes c = nmeet ws (gc_lvl c) (gc_t c) /\
+                     gc_samples c = sumN' (map w_smp (filter (meets (gc_lvl c) (gc_t c)) ws)))
+           (s_get qa qb (fst (run_writes ws))).
+Proof.
+  intros Hv H1.
+  assert (Hsh : Forall (fun w => w_b w - w_a w < 10) ws).
+  { eapply Forall_impl; [|exact H1]. intros w [Hb _]. lia. }
+  destruct (seg_counters_exact K ws Hv Hsh) as [G1 G2]. split; [exact G1|].
+  intros qa qb Hq. eapply Forall_impl; [|exact (G2 qa qb Hq)].
+  intros c [C1 C2]. split; [exact C1|]. rewrite C2. apply ssum_single_slot. exact H1.
+Qed.
